@@ -191,7 +191,11 @@ func runExcerpt(c exCase, variant string) (obs exObs) {
 		obs.End = obs.Start + len(mid)
 		if i+1 < len(lines) {
 			if cm := exCaretRe.FindStringSubmatch(lines[i+1]); cm != nil {
-				obs.Caret = len(cm[1]) + 1
+				// the caret column is where the caret stands relative to the start of the excerpt text of the numbered row
+				// (both rows have a gutter; they must line up whatever the width of the line numbers)
+				textStart := strings.Index(lines[i], "| ") + 2
+				caretAt := strings.Index(lines[i+1], "| ") + 2 + len(cm[1])
+				obs.Caret = caretAt - textStart + 1
 				for k := 0; k < len(cm[1]); k++ {
 					wantTab := k < len(text) && text[k] == '\t'
 					if (cm[1][k] == '\t') != wantTab {
